@@ -79,6 +79,8 @@ structure QuicPacketObj where
     "Reasm2": dict(imports=["TLX.PyRt", "TLX.Reassembly"],
                    decls=["/-- a `TlsRecord` as constructed: `binary` (the whole record) and `metadata` (the packets that carry it) -/\n"
                           "structure TlsRecordObj where\n  binary : Bytes\n  metadata : List TLX.Reassembly.Seg\n  deriving DecidableEq, Repr\n"]),
+    "KeySched": dict(imports=["TLX.PyRt", "TLX.KeySchedule"],
+                     decls=["/-- a `QuicDecryptor` as constructed: its key list -/\nstructure QDecObj where\n  keys : List Bytes\n  deriving DecidableEq, Repr\n"], options=["set_option linter.unusedVariables false"]),
     "TlsSess2": dict(imports=["TLX.PyRt", "TLX.Session"], decls=[], options=["set_option linter.unusedVariables false"]),
     # the frame class constructors call the two varint functions: this group rests on Varint's definitions
     "Frames": dict(imports=["TLX.PyRt", "TLX.Quic.FrameTypes", "TLX.Gen.Translated.Varint"], decls=[]),
@@ -546,6 +548,95 @@ for _d in ("server", "client"):
                       fuel={"while True": "total_packet_len + 1", "while index != total_packet_len": "total_packet_len"},
                       ctors={"TlsRecord": dict(type="TlsRecordObj", positional=[("binary", "Bytes"), ("metadata", f"List {SEG}"), (None, None)])}))
 
+# key_derivator.py / quic_key_generation.py: the PRFs, master secrets, key-block slicing and HKDF label plumbing. The hash
+# primitives are externals (`hmacX alg key msg`, `hashX alg msg`, `hkdfExpandX alg length info ikm`, `hkdfExtractX alg salt ikm`);
+# a hash / HMAC object is `PyRt.Acc` (`update` appends, `finalize` digests); `math.ceil(l_s / 2)` is the external `ceilHalf`
+# (float division: exact below 2^53, which the spec does not assume). Hash classes and cipher classes are the model's tags.
+MT = "TLX.KeySchedule.MacTag"
+CT = "TLX.KeySchedule.CipherTag"
+KD = "tlexport/key_derivator.py"
+HMACX = ("hmacX", f"{MT} → Bytes → Bytes → Bytes")
+HASHX = ("hashX", f"{MT} → Bytes → Bytes")
+HKDFX = ("hkdfExpandX", f"{MT} → Nat → Bytes → Bytes → Bytes")
+EXTRX = ("hkdfExtractX", f"{MT} → Bytes → Bytes → Bytes")
+CEILX = ("ceilHalf", "Nat → Nat")
+HASH_CONSTS = {"hashes.SHA256": (f"{MT}.sha256", MT), "hashes.SHA384": (f"{MT}.sha384", MT),
+               "hashes.MD5()": (f"{MT}.md5", MT), "hashes.SHA1()": (f"{MT}.sha1", MT)}
+CIPHER_CONSTS = {"algorithms.AES": (f"{CT}.aes", CT), "algorithms.Camellia": (f"{CT}.camellia", CT),
+                 "algorithms.TripleDES": (f"{CT}.tripleDES", CT), "algorithms.IDEA": (f"{CT}.idea", CT),
+                 "ChaCha20Poly1305": (f"{CT}.chacha", CT)}
+ACC_CALLS = {"hmac.HMAC": dict(fmt="(PyRt.Acc.mk (hmacX {1} {0}) [])", args=["Bytes", MT], ret="Acc"),
+             "hashes.Hash": dict(fmt="(PyRt.Acc.mk (hashX {0}) [])", args=[MT], ret="Acc")}
+B4 = [("secret", "Bytes"), ("client_random", "Bytes"), ("server_random", "Bytes")]
+
+
+def ks_spec(name, params, ret, file=KD, **more):
+    spec = dict(name=name, group="KeySched", file=file, func=name, params=params, ret=ret, consts={**HASH_CONSTS, **CIPHER_CONSTS},
+                theorem=f"KS.{name}_eq_model",
+                instances=[MT], calls=dict(ACC_CALLS))
+    for k, v in more.items():
+        if k in ("consts", "calls"):
+            spec[k] = {**spec[k], **v}
+        else:
+            spec[k] = v
+    SPECS.append(spec)
+
+
+PRF12 = dict(lean="prf_tls_12 hmacX", args=["Bytes", "Bytes", "Bytes", "Bytes", "Nat", MT], ret="Bytes", raises=True)
+PRF1011 = dict(lean="prf_tls_10_11 hmacX ceilHalf", args=["Bytes", "Bytes", "Bytes", "Bytes", "Nat", "Nat"], ret="Bytes", raises=True)
+PRF30 = dict(lean="prf_ssl_30 hashX", args=["Bytes", "Bytes", "Bytes", "Nat", "Nat"], ret="Bytes", raises=True)
+ks_spec("prf_tls_12", B4 + [("label", "Bytes"), ("length", "Nat"), ("mac_function", MT)], "Bytes", externals=[HMACX],
+        fuel={"while len(secret_block)": "length"})
+ks_spec("prf_tls_10_11", B4 + [("label", "Bytes"), ("length", "Nat"), ("non_key", "Nat")], "Bytes", externals=[HMACX, CEILX],
+        consts={"math.ceil(l_s / 2)": ("(ceilHalf l_s)", "Nat")},
+        fuel={"while len(p_md5)": "length", "while len(p_sha1)": "length"})
+ks_spec("prf_ssl_30", B4 + [("length", "Nat"), ("non_key", "Nat")], "Bytes", externals=[HASHX], fuel={"while len(key_block)": "length"})
+GM = [("pm_secret", "Bytes"), ("client_random", "Bytes"), ("server_random", "Bytes")]
+ks_spec("gen_master_secret_tls_12", GM + [("mac_function", MT)], "Bytes", externals=[HMACX])
+ks_spec("gen_master_secret_tls_10_11", GM, "Bytes", externals=[HMACX, CEILX], calls={"prf_tls_10_11": PRF1011})
+ks_spec("gen_master_secret_ssl_30", GM, "Bytes", externals=[HASHX], calls={"prf_ssl_30": PRF30})
+DEV = [("key_length", "Nat"), ("mac_length", "Nat"), ("key_block_length", "Nat"), ("cipher_algo", CT), ("use_aead", "Nat")]
+DROP_LOG = ["logging_string", "for k in keys"]
+KEYS_T = "Table Str; Bytes"
+ks_spec("dev_tls_12_keys", [("master_secret", "Bytes"), ("client_random", "Bytes"), ("server_random", "Bytes")] + DEV + [("mac_function", MT)],
+        KEYS_T, externals=[HMACX], calls={"prf_tls_12": PRF12}, drop_stmts=DROP_LOG)
+ks_spec("dev_tls_10_11_keys", [("master_secret", "Bytes"), ("server_random", "Bytes"), ("client_random", "Bytes")] + DEV,
+        KEYS_T, externals=[HMACX, CEILX], calls={"prf_tls_10_11": PRF1011}, drop_stmts=DROP_LOG)
+ks_spec("dev_ssl_30_keys", [("master_secret", "Bytes"), ("server_random", "Bytes"), ("client_random", "Bytes")] + DEV,
+        KEYS_T, externals=[HASHX], calls={"prf_ssl_30": PRF30}, drop_stmts=DROP_LOG)
+QK = "tlexport/quic/quic_key_generation.py"
+ks_spec("make_info", [("label", "Bytes"), ("key_length", "Nat")], "Bytes", file=QK)
+
+# … TLS 1.3 / QUIC: a key-log entry is (label, bytes of the hex value) — `bytes.fromhex(secret.value)` is that second component
+KSEC = {"KSecret": "(List Nat × Bytes)"}
+KSEC_ATTRS = {("KSecret", "label"): ("Prod.fst", "Str")}
+KSEC_CONSTS = {"bytes.fromhex(secret.value)": ("secret.2", "Bytes")}
+QV = "TLX.KeySchedule.QuicVersion"
+QV_CONSTS = {"QuicVersion.V1": (f"{QV}.v1", QV), "QuicVersion.V2": (f"{QV}.v2", QV)}
+HKDF_CALLS = {"HKDFExpand.derive": dict(lean="hkdfExpandX", params=(["algorithm", "length", "info"], ["key_material"]),
+                                        args=[MT, "Nat", "Bytes", "Bytes"], ret="Bytes"),
+              "HKDF._extract": dict(lean="hkdfExtractX", params=(["algorithm", "length", "salt", "info"], ["key_material"]),
+                                    args=[MT, None, "Bytes", None, "Bytes"], ret="Bytes")}
+MAKE_INFO = {"make_info": dict(lean="make_info", args=["Bytes", "Nat"], ret="Bytes", raises=True)}
+OB = "Option Bytes"
+ks_spec("dev_tls_13_keys", [("secret_list", "List KSecret"), ("key_length", "Nat"), ("hash_fun", MT)], f"Table Str; ({OB})",
+        externals=[HKDFX], types=KSEC, attr_funcs=KSEC_ATTRS, consts=KSEC_CONSTS, calls=HKDF_CALLS, drop_stmts=DROP_LOG,
+        locals={n: OB for n in ("client_handshake_key", "client_handshake_iv", "server_handshake_key", "server_handshake_iv",
+                                "client_application_key", "client_application_iv", "server_application_key", "server_application_iv")})
+ks_spec("dev_initial_keys", [("connection_id", "Bytes"), ("quic_version", QV), ("chacha20", "Bool")], f"Option ({KEYS_T})", file=QK,
+        externals=[HKDFX, EXTRX], consts={**QV_CONSTS, "SHA256()": (f"{MT}.sha256", MT)}, calls={**HKDF_CALLS, **MAKE_INFO})
+ks_spec("key_update", [("hash_fun", MT), ("key_length", "Nat"), ("quic_version", QV)], "QDecObj", file=QK,
+        externals=[HKDFX, ("digestSize", f"{MT} → Nat")], consts={**QV_CONSTS, "quic_version.V1": ("true", "Bool")},
+        attr_funcs={(MT, "digest_size"): ("digestSize", "Nat")}, calls={**HKDF_CALLS, **MAKE_INFO},
+        places=[("decryptor_n.keys", "keys", "List Bytes", "r")],
+        ctors={"QuicDecryptor": dict(type="QDecObj", positional=[("keys", "List Bytes"), (None, None)], ignore_kw=["early"])})
+QK_MAYBE = {f"{side}_{kind}_{part}": "Bytes" for side in ("client", "server") for kind in ("handshake", "application") for part in ("key", "iv", "hp")}
+QK_MAYBE.update({"client_application_secret": "Bytes", "server_application_secret": "Bytes"})
+ks_spec("dev_quic_keys", [("key_length", "Nat"), ("secret_list", "List KSecret"), ("hash_fun", MT), ("quic_version", QV)], f"Table Str; ({OB})",
+        file=QK, externals=[HKDFX], types=KSEC, attr_funcs=KSEC_ATTRS, consts={**KSEC_CONSTS, **QV_CONSTS}, calls={**HKDF_CALLS, **MAKE_INFO},
+        drop_stmts=DROP_LOG, maybe_locals=QK_MAYBE, split_loops=True,
+        locals={f"{side}_early_traffic_{part}": OB for side in ("client", "server") for part in ("key", "iv", "hp")})
+
 THEOREMS = _uniq(theorem_of(s) for s in SPECS)
 
 
@@ -576,6 +667,7 @@ CHECK_GROUPS = {
     "C11": ["Checksum"],
     "C13": ["TlsSess", "TlsSess2"],
     "C14": ["Suites"],
+    "C15": ["KeySched"],
     "C16": ["Pn"],
     "C17": ["Varint", "Frames"],
     "C18": ["Demux"],
@@ -802,6 +894,159 @@ def _toy_generate_keys(self, ver, suite, cr, sr):
     else:
         self.can_decrypt = False
         raise KeyError("toy")
+
+
+# ---- key_derivator.py / quic_key_generation.py (group KeySched): the toy hash suites of `TLX.Crypto.toyPrims` on both sides
+def _toy_digest(w, m):
+    s_ = 1
+    for x in m:
+        s_ = (s_ * 31 + x + 7) % 65521
+    return bytes((s_ // (i + 1) + i) % 256 for i in range(w))
+
+
+def _toy_stream(seed, n):
+    return bytes(_toy_digest(1, bytes([i % 256]) + seed)[0] for i in range(n))
+
+
+_TOY_W = {"MD5": 2, "SHA1": 3, "SHA256": 4, "SHA384": 5}
+_MT = "TLX.KeySchedule.MacTag"
+_TOY_MT = {"MD5": f"{_MT}.md5", "SHA1": f"{_MT}.sha1", "SHA256": f"{_MT}.sha256", "SHA384": f"{_MT}.sha384"}
+_SUITE = "(TLX.KeySchedule.macSuite TLX.Crypto.toyPrims t)"
+KS_EXT = {"hmacX": f"(fun t k m => {_SUITE}.hmac k m)", "hashX": f"(fun t m => {_SUITE}.hash m)",
+          "hkdfExpandX": f"(fun t n info ikm => {_SUITE}.hkdfExpand ikm info n)", "hkdfExtractX": f"(fun t salt ikm => {_SUITE}.hkdfExtract salt ikm)",
+          "ceilHalf": "(fun n => (n + 1) / 2)",
+          "digestSize": f"(fun t => match t with | {_MT}.md5 => 16 | {_MT}.sha1 => 20 | {_MT}.sha256 => 32 | {_MT}.sha384 => 48)"}
+
+
+def _w(alg):
+    return _TOY_W[alg.__name__ if isinstance(alg, type) else type(alg).__name__]
+
+
+class _ToyHMAC:
+    def __init__(self, key, alg):
+        self.k, self.w, self.m = bytes(key), _w(alg), b""
+
+    def update(self, x):
+        self.m += bytes(x)
+
+    def finalize(self):
+        return _toy_digest(self.w, self.k + b"\x5c" + self.m)
+
+
+class _ToyHash:
+    def __init__(self, alg):
+        self.w, self.m = _w(alg), b""
+
+    def update(self, x):
+        self.m += bytes(x)
+
+    def finalize(self):
+        return _toy_digest(self.w, self.m)
+
+
+class _ToyHKDFExpand:
+    def __init__(self, algorithm, length, info):
+        self.n, self.info = length, bytes(info)
+
+    def derive(self, key_material):
+        return _toy_stream(bytes(key_material) + b"\xff" + self.info, self.n)
+
+
+class _ToyHKDF:
+    def __init__(self, algorithm, length, salt, info):
+        self.w, self.salt = _w(algorithm), bytes(salt)
+
+    def _extract(self, key_material):
+        return _toy_digest(self.w, self.salt + b"\x36" + bytes(key_material))
+
+
+def _ks_cases(rng, call):
+    """one call of each translated function of the group → [(lean name, arguments, expected)]"""
+    import importlib
+    from types import SimpleNamespace as NS
+    from cryptography.hazmat.primitives import hashes as H
+    from cryptography.hazmat.primitives.ciphers import algorithms as A
+    from cryptography.hazmat.primitives.ciphers.aead import ChaCha20Poly1305
+    kd = importlib.import_module("tlexport.key_derivator")
+    qk = importlib.import_module("tlexport.quic.quic_key_generation")
+    qd = importlib.import_module("tlexport.quic.quic_decode")
+    saved = (kd.hmac, kd.hashes, kd.HKDFExpand, qk.HKDFExpand, qk.HKDF, qk.QuicDecryptor)
+    kd.hmac = NS(HMAC=_ToyHMAC)
+    kd.hashes = NS(SHA256=H.SHA256, SHA384=H.SHA384, MD5=H.MD5, SHA1=H.SHA1, Hash=_ToyHash, HashAlgorithm=H.HashAlgorithm)
+    kd.HKDFExpand = qk.HKDFExpand = _ToyHKDFExpand
+    qk.HKDF = _ToyHKDF
+    qk.QuicDecryptor = lambda keys, cipher, early=False: NS(keys=keys)
+    out = []
+
+    def rb(lo, hi):
+        return bytes(rng.randrange(256) for _ in range(rng.randint(lo, hi)))
+
+    def res(k, v, f=_b):
+        return f".ok {f(v)}" if k == "ok" else f".error .{v}"
+
+    def table(d, opt=False):
+        ent = lambda x: ("none" if x is None else f"(some {_b(x)})") if opt else _b(x)
+        return "[" + ", ".join("([" + ", ".join(str(ord(c)) for c in kk) + "], " + ent(vv) + ")" for kk, vv in d.items()) + "]"
+    try:
+        sec, cr, sr, lab = rb(0, 5), rb(0, 4), rb(0, 4), rb(0, 4)
+        n = rng.choice([0, 1, 3, 7, 12])
+        mac = rng.choice([H.SHA256, H.SHA384, H.MD5, H.SHA1])
+        mt = _TOY_MT[mac.__name__]
+        nk = rng.choice([0, 1])
+        k, v = call(kd.prf_tls_12, sec, cr, sr, lab, n, mac)
+        out.append(("prf_tls_12", f"{KS_EXT['hmacX']} {_b(sec)} {_b(cr)} {_b(sr)} {_b(lab)} {n} {mt}", res(k, v)))
+        k, v = call(kd.prf_tls_10_11, sec, cr, sr, lab, n, nk)
+        out.append(("prf_tls_10_11", f"{KS_EXT['hmacX']} {KS_EXT['ceilHalf']} {_b(sec)} {_b(cr)} {_b(sr)} {_b(lab)} {n} {nk}", res(k, v)))
+        n30 = rng.choice([0, 1, 3, 7, 12, 21, 25])
+        k, v = call(kd.prf_ssl_30, sec, cr, sr, n30, nk)
+        out.append(("prf_ssl_30", f"{KS_EXT['hashX']} {_b(sec)} {_b(cr)} {_b(sr)} {n30} {nk}", res(k, v)))
+        k, v = call(kd.gen_master_secret_tls_12, sec, cr, sr, mac)
+        out.append(("gen_master_secret_tls_12", f"{KS_EXT['hmacX']} {_b(sec)} {_b(cr)} {_b(sr)} {mt}", _b(v)))
+        k, v = call(kd.gen_master_secret_tls_10_11, sec, cr, sr)
+        out.append(("gen_master_secret_tls_10_11", f"{KS_EXT['hmacX']} {KS_EXT['ceilHalf']} {_b(sec)} {_b(cr)} {_b(sr)}", res(k, v)))
+        k, v = call(kd.gen_master_secret_ssl_30, sec, cr, sr)
+        out.append(("gen_master_secret_ssl_30", f"{KS_EXT['hashX']} {_b(sec)} {_b(cr)} {_b(sr)}", res(k, v)))
+        ciph = rng.choice([(A.AES, "aes"), (A.Camellia, "camellia"), (A.TripleDES, "tripleDES"), (A.IDEA, "idea"), (ChaCha20Poly1305, "chacha"), (A.ARC4, "rc4")])
+        ct = f"TLX.KeySchedule.CipherTag.{ciph[1]}"
+        kl_, ml_, ua = rng.choice([0, 1, 2]), rng.choice([0, 1, 2]), rng.choice([0, 1])
+        kbl = 2 * kl_ + 2 * ml_
+        k, v = call(kd.dev_tls_12_keys, sec, cr, sr, kl_, ml_, kbl, ciph[0], ua, mac)
+        out.append(("dev_tls_12_keys", f"{KS_EXT['hmacX']} {_b(sec)} {_b(cr)} {_b(sr)} {kl_} {ml_} {kbl} {ct} {ua} {mt}", res(k, v, table)))
+        k, v = call(kd.dev_tls_10_11_keys, sec, sr, cr, kl_, ml_, kbl, ciph[0], ua)
+        out.append(("dev_tls_10_11_keys", f"{KS_EXT['hmacX']} {KS_EXT['ceilHalf']} {_b(sec)} {_b(sr)} {_b(cr)} {kl_} {ml_} {kbl} {ct} {ua}", res(k, v, table)))
+        k, v = call(kd.dev_ssl_30_keys, sec, sr, cr, kl_, ml_, kbl, ciph[0], ua)
+        out.append(("dev_ssl_30_keys", f"{KS_EXT['hashX']} {_b(sec)} {_b(sr)} {_b(cr)} {kl_} {ml_} {kbl} {ct} {ua}", res(k, v, table)))
+        lbl, kl2 = rb(0, 12), rng.choice([0, 16, 32, 255, 65535, 65536, 70000])
+        k, v = call(qk.make_info, lbl, kl2)
+        out.append(("make_info", f"{_b(lbl)} {kl2}", res(k, v)))
+        names = ["CLIENT_HANDSHAKE_TRAFFIC_SECRET", "SERVER_HANDSHAKE_TRAFFIC_SECRET", "CLIENT_TRAFFIC_SECRET_0", "SERVER_TRAFFIC_SECRET_0",
+                 "CLIENT_EARLY_TRAFFIC_SECRET", "SERVER_EARLY_TRAFFIC_SECRET", "CLIENT_RANDOM", "EXPORTER_SECRET"]
+        picks = [(nm, rb(0, 4)) for nm in names if rng.random() < 0.8] + [(rng.choice(names), rb(1, 3)) for _ in range(rng.randint(0, 2))]
+        rng.shuffle(picks)
+        secs = [NS(label=a, value=b_.hex()) for a, b_ in picks]
+        ssl = "[" + ", ".join("([" + ", ".join(str(ord(c)) for c in a) + "], " + _b(b_) + ")" for a, b_ in picks) + "]"
+        kl3 = rng.choice([1, 2, 16, 70000]) if rng.random() < 0.9 else 65535
+        k, v = call(kd.dev_tls_13_keys, secs, kl3 if kl3 != 65535 else 3, mac())
+        out.append(("dev_tls_13_keys", f"{KS_EXT['hkdfExpandX']} {ssl} {kl3 if kl3 != 65535 else 3} {mt}", res(k, v, lambda d: table(d, True))))
+        cid = rb(0, 5)
+        ver = rng.choice([(qd.QuicVersion.V1, "v1"), (qd.QuicVersion.V2, "v2"), (qd.QuicVersion.UNKNOWN, "unknown")])
+        qv = f"TLX.KeySchedule.QuicVersion.{ver[1]}"
+        cha = rng.random() < 0.5
+        k, v = call(qk.dev_initial_keys, cid, ver[0], cha)
+        out.append(("dev_initial_keys", f"{KS_EXT['hkdfExpandX']} {KS_EXT['hkdfExtractX']} {_b(cid)} {qv} {_bool(cha)}",
+                    (".ok none" if v is None else f".ok (some {table(v)})") if k == "ok" else f".error .{v}"))
+        keys = [rb(0, 3) for _ in range(rng.choice([0, 4, 5, 6, 6, 6]))]
+        hcls = rng.choice([H.SHA256, H.SHA384])
+        kl4 = rng.choice([1, 2, 16])
+        k, v = call(qk.key_update, NS(keys=list(keys)), hcls, kl4, None, ver[0])
+        out.append(("key_update", f"{KS_EXT['hkdfExpandX']} {KS_EXT['digestSize']} {_TOY_MT[hcls.__name__]} {kl4} {qv} [" + ", ".join(_b(x) for x in keys) + "]",
+                    f".ok {{ keys := [" + ", ".join(_b(x) for x in v.keys) + "] }" if k == "ok" else f".error .{v}"))
+        kl5 = rng.choice([1, 2, 70000]) if rng.random() < 0.95 else 70000
+        k, v = call(qk.dev_quic_keys, kl5, secs, mac(), ver[0])
+        out.append(("dev_quic_keys", f"{KS_EXT['hkdfExpandX']} {kl5} {ssl} {mt} {qv}", res(k, v, lambda d: table(d, True))))
+    finally:
+        kd.hmac, kd.hashes, kd.HKDFExpand, qk.HKDFExpand, qk.HKDF, qk.QuicDecryptor = saved
+    return out
 
 
 def _sess_case(rng, ses, vers, call):
@@ -1219,6 +1464,7 @@ def _cases(rng, n):
             out.append((f"extract_{side}_frame", f"{base} {segs(pkts)} [] (some {base})",
                         f".ok () {{ packet_buffer := {segs(getattr(me, side + '_packet_buffer'))}, tls_records := {recs}, next_seq := (some {nxt}) }}"
                         if k == "ok" else f".raised .{v} {{ packet_buffer := [], tls_records := [], next_seq := none }}"))
+        out.extend(_ks_cases(rng, call))
         # output builders
         pm = rng.choice([{}, {443: 8443}, {443: 8443, 5000: 1}])
         sp, keep = rng.choice([443, 5000, 80]), rng.random() < 0.5
